@@ -197,7 +197,7 @@ def main():
             r = subprocess.run(f"cd /verif && ./check {p} --tier {tier}", shell=True, capture_output=True, text=True, env=env)
             viol = [l for l in r.stdout.splitlines() if l.startswith("VIOLATION")]
             classes = sorted({l.split("#", 1)[1].strip().split(":")[0] for l in viol if "#" in l})
-            record({"cmd": cmd, "prop": prop, "n": n, "check": p, "tier": tier, "rc": r.returncode, "violations": len(viol), "classes": classes[:6],
+            record({"cmd": cmd, "prop": prop, "n": n, "check": p, "tier": tier, "seed": os.environ.get("VERIF_SEED", "0"), "rc": r.returncode, "violations": len(viol), "classes": classes[:6],
                     "first": viol[0][-300:] if viol else "", "inconclusive": [l[:200] for l in r.stdout.splitlines() if l.startswith("INCONCLUSIVE")][:2], "wall": round(time.time() - t0)})
         drop(d)
 
